@@ -454,11 +454,12 @@ static void body_timer (void) {
     break;
   case 3: {     /* heart-beat pattern: main waits on the event loop between ticks, then stops */
     EXPECT (platform_timer_start (&tm, 1000, tick_cb), TIMER_OK);
-    int wake = 0;
+    int wake = 0, full = 0;
     for (int i = 0; i < 2; i++) {
-      io_event_t ev[4]; struct timeval tv = { 0, SCHED ? 5000 : 3000 };
+      io_event_t ev[2]; struct timeval tv = { 0, SCHED ? 5000 : 3000 };
       g_call = "async_runtime_wait";
-      int n = async_runtime_wait (rt, ev, 4, &tv);
+      int n = async_runtime_wait (rt, ev, 2, &tv);        /* a small event buffer (the driver's has 512 slots) */
+      if (n == 2) full = 1;
       for (int j = 0; j < n; j++) wake += (int) ev[j].bytes_transferred;
     }
     g_call = "-";
@@ -466,7 +467,10 @@ static void body_timer (void) {
     settle ("platform_timer_stop", 1);
     { io_event_t ev[4]; struct timeval tv = { 0, 0 }; int n = async_runtime_wait (rt, ev, 4, &tv); for (int j = 0; j < n; j++) wake += (int) ev[j].bytes_transferred; }
     vx_obs ("ticks %d, wake-ups seen (summed) %d", ticks_now (), wake);
-    if (wake != ticks_now ()) failf ("C19:timer:wakeups-not-accounted", "%d ticks called async_runtime_wakeup, the event loop accounted for %d", ticks_now (), wake);
+    if (wake != ticks_now ())
+      failf (full && wake < ticks_now () ? "C19:wait:notification-dropped-when-event-buffer-full" : "C19:timer:wakeups-not-accounted",
+             "%d ticks called async_runtime_wakeup, the event loop accounted for %d%s", ticks_now (), wake,
+             full ? " (a wait returned max_events=2 events: what it read from the eventfd after that was discarded)" : "");
     break; }
   }
   g_call = "platform_timer_cleanup";
